@@ -198,8 +198,16 @@ def check_history(ck, rule, inst, site, make, f, stubs=None, max_paths=48, stick
                         differs = True
                         if hasattr(x2, "syms"):
                             stale |= (x2.syms() & old)
+                # a call that found its stored inputs *equal in content* to the current ones (torch.equal(kept copy, argument) taken
+                # as true) may hand out what it stored: on that path the overwritten argument holds the old values again
+                eq_reuse = k == 2 and any(len(c) > 3 and c[2] is True and getattr(c[3], "term", None) is not None
+                                          and any(isinstance(a_, T.App) and a_.op in ("tensor_equal", "tensor_allclose") and (a_.args[0].syms() | a_.args[1].syms()) & set(mapping.values())
+                                                  for a_ in c[3].term.all_atoms())
+                                          for c in rec["conds"][k - 1])
                 if not differs:
                     ck.ok(rule, name, site)
+                elif eq_reuse:
+                    ck.ok(rule, name + " (reuse under torch.equal of the kept and the current argument)", site)
                 elif stale and rec["new_decisions"][k - 1] == 0:
                     ck.violation(rule, name, site, "after %s, the next call still returns a value computed from the previous %s: a stored result is reused without being invalidated"
                                  % ("reinitialize_parameters() created new parameters" if rec.get("mode") and k == 1 else what[k - 1], ", ".join(sorted(stale)[:4])),
@@ -224,6 +232,64 @@ def check_history(ck, rule, inst, site, make, f, stubs=None, max_paths=48, stick
                          "the value handed out by the first call was modified by the second call", key="%s|%s|clobbered" % (rule, inst))
 
 
+def _ints_eq(x, y):
+    from .. import ints
+
+    return x == y or ints.equal_by_tables(x, y) is True
+
+
+def _int_witness(conds):
+    """conds: [(outcome, term)] of comparisons between integer size expressions of the call's arguments.  A small assignment of
+    the integer symbols under which every comparison has the recorded outcome *strictly* (no boundary case), or None when a
+    condition is not such a comparison or no assignment in 1..6 exists."""
+    import itertools
+    from .. import ints
+
+    if not conds or any(c is None or c[1] is None for c in conds):
+        return None
+    ops = {"cmp_Lt": lambda a, b: a < b, "cmp_LtE": lambda a, b: a <= b, "cmp_Gt": lambda a, b: a > b, "cmp_GtE": lambda a, b: a >= b, "cmp_Eq": lambda a, b: a == b, "cmp_NotEq": lambda a, b: a != b}
+    parsed, syms = [], set()
+    for outcome, t in conds:
+        alts = []
+        atoms = [t.single_atom()]
+        a0 = atoms[0]
+        # `x is None or a < b` decided False: every disjunct is false; only the comparison carries integers
+        if isinstance(a0, T.App) and a0.op in ("lor", "land"):
+            atoms = [x.single_atom() if isinstance(x, T.Poly) else None for x in a0.args]
+            if (a0.op == "lor" and outcome is not False) or (a0.op == "land" and outcome is not True):
+                return None
+        for a in atoms:
+            if isinstance(a, T.App) and a.op in ops and len(a.args) == 2:
+                alts.append(a)
+            elif isinstance(a, T.App) and a.op in ("is_", "cmp_Is", "isnone"):
+                continue
+            elif a is None or not isinstance(a, T.App):
+                return None
+            else:
+                continue
+        if not alts:
+            return None
+        for a in alts:
+            parsed.append((outcome, a))
+            syms |= a.args[0].syms() | a.args[1].syms()
+    if not syms or len(syms) > 3:
+        return None
+    names = sorted(syms)
+    for vals in itertools.product(range(1, 7), repeat=len(names)):
+        env = dict(zip(names, vals))
+        ok = True
+        for outcome, a in parsed:
+            x, y = ints.eval_count(a.args[0], env), ints.eval_count(a.args[1], env)
+            if x is None or y is None:
+                return None
+            if ops[a.op](x, y) != bool(outcome) or x == y:
+                ok = False
+                break
+        if ok:
+            return env
+    return None
+
+
 def check_after(ck, rule, inst, site, make, pre, f, stubs=None, max_paths=48, sticky=True):
     """Order independence: f(ctx) evaluated after other public calls pre(ctx) on the same objects must give what f(ctx)
     gives on its own.  Two interpretations (with / without the prefix) are compared path by path (same decisions)."""
@@ -236,7 +302,8 @@ def check_after(ck, rule, inst, site, make, pre, f, stubs=None, max_paths=48, st
                 pre(it, ctx)
             c0 = len(it.conds)
             r = f(it, ctx)
-            return {"t": snapshot_terms(it, r), "shape": getattr(r, "shape", None), "fconds": [(c[0], c[1]) for c in it.conds[c0:]], "conds": list(it.conds)}
+            return {"t": snapshot_terms(it, r), "shape": getattr(r, "shape", None), "fconds": [(c[0], c[1]) for c in it.conds[c0:]], "conds": list(it.conds),
+                    "fterms": {(c[0], c[1]): (c[2], getattr(c[3] if len(c) > 3 else None, "term", None)) for c in it.conds[c0:]}}
 
         return [p for p in paths_of(prog, th, max_paths=max_paths, sticky=sticky, stubs=stubs) if p.outcome == "return"]
 
@@ -272,7 +339,30 @@ def check_after(ck, rule, inst, site, make, pre, f, stubs=None, max_paths=48, st
             extra = [c for c in rec["fconds"] if c not in v["fconds"]]
             sa_, sb_ = rec["shape"], v["shape"]
             shape_differs = sa_ is not None and sb_ is not None and (len(sa_) != len(sb_) or any(x != y and "?" not in (str(x), str(y)) for x, y in zip(sa_, sb_)))
-            if not extra and all(x is not None for x in a2):
+            wit = _int_witness([rec["fterms"].get(c) for c in extra]) if extra else None
+            if extra and wit is not None and all(x is not None for x in a2):
+                # the two results are compared *by value* at the witness (integer tables: arange, shifts, masks, slices); terms the
+                # evaluator cannot compute leave the question open
+                from .. import ints as _ints
+
+                a1w = _flat(v["t"])
+                vals = [(_ints.eval_array(x, wit) if hasattr(x, "terms") else None, _ints.eval_array(y, wit) if hasattr(y, "terms") else None) for x, y in zip(a1w, a2)] if len(a1w) == len(a2) else []
+                if vals and all(p_ is not None and q_ is not None for p_, q_ in vals):
+                    if all(_ints.arrays_equal(p_, q_) for p_, q_ in vals):
+                        ck.ok(rule, name + " (equal by value at %s)" % ", ".join("%s=%d" % kv for kv in sorted(wit.items())), site)
+                        continue
+                else:
+                    wit = None
+            if extra and wit is not None and all(x is not None for x in a2):
+                ck.violation(rule, name, site, "after the preceding calls the result is %s; on its own the same call gives %s: state carried over from earlier calls changes the result whenever %s (e.g. %s)"
+                             % (str(a2[0])[:140], str(_flat(v["t"])[0])[:140], " and ".join("%s is %s" % (c[1][:50], rec["fterms"][c][0]) for c in extra)[:160], ", ".join("%s = %d" % kv for kv in sorted(wit.items()))),
+                             key="%s|%s|order" % (rule, inst))
+            elif not extra and all(x is not None for x in a2) and len(_flat(v["t"])) == len(a2) and all(
+                    hasattr(x, "terms") and hasattr(y, "terms") and _ints_eq(x, y) for x, y in zip(_flat(v["t"]), a2)):
+                # the two results spell the same integer tables differently (another slice of a wider table, ...): equal by value for
+                # every size 1..3 of the table sizes involved
+                ck.ok(rule, name + " (equal after evaluating the integer tables)", site)
+            elif not extra and all(x is not None for x in a2):
                 ck.violation(rule, name, site, "after the preceding calls the result is %s; on its own the same call gives %s: state carried over from earlier calls changes the result"
                              % (str(a2[0])[:140], str(_flat(v["t"])[0])[:140]), key="%s|%s|order" % (rule, inst))
             elif shape_differs:
